@@ -80,7 +80,7 @@ const basePrelude = `
 (declare-sort BytesV 0)
 (declare-fun bytesval ((Slice Int)) BytesV)
 (declare-fun bvlen (BytesV) Int)
-(assert (forall ((a (Slice Int))) (! (= (bvlen (bytesval a)) (sl.len a)) :pattern ((bytesval a)))))
+(assert (forall ((a (Slice Int))) (! (=> (>= (sl.len a) 0) (= (bvlen (bytesval a)) (sl.len a))) :pattern ((bytesval a)))))
 (define-fun bytes.eq ((a (Slice Int)) (b (Slice Int))) Bool (= (bytesval a) (bytesval b)))
 (declare-fun s.len (Str) Int)
 (declare-fun s.cat (Str Str) Str)
@@ -111,7 +111,7 @@ const basePrelude = `
 (assert (forall ((s Str)) (! (>= (s.len s) 0) :pattern ((s.len s)))))
 (assert (forall ((a Str) (b Str)) (! (= (s.len (s.cat a b)) (+ (s.len a) (s.len b))) :pattern ((s.cat a b)))))
 (assert (forall ((s Str)) (! (and (= (sl.len (s.bytes s)) (s.len s)) (not (sl.nil (s.bytes s))) (= (s.frombytes (s.bytes s)) s)) :pattern ((s.bytes s)))))
-(assert (forall ((b (Slice Int))) (! (= (s.len (s.frombytes b)) (sl.len b)) :pattern ((s.frombytes b)))))
+(assert (forall ((b (Slice Int))) (! (=> (>= (sl.len b) 0) (= (s.len (s.frombytes b)) (sl.len b))) :pattern ((s.frombytes b)))))
 `
 
 func (u *Univ) loadBaseSigs() {
